@@ -209,4 +209,34 @@ def build(fb=None):
     def extra():
         return {"sorted": sorted_stub, "_kronecker_operators": kronecker_stub, "scipy": scipy_stub, "numpy": numpy_stub, "pauli_matrix_map": PMap(),
                 "PauliSum": Operator, "PauliTerm": Operator}
-    return [vprop.fn_ob("C09", c, {}, call=call, setup=setup, extra_stubs=extra, fallback=fb, obid="C09.kronecker_chain.contract", desc=c.doc, timeout_ms=60000)]
+    return [vprop.fn_ob("C09", c, {}, call=call, setup=setup, extra_stubs=extra, fallback=fb, obid="C09.kronecker_chain.contract", desc=c.doc, timeout_ms=60000)] + _expectation_ob(fb)
+
+
+def _expectation_ob(fb):
+    """`get_expectation_value(op, wavefunction, reverse)` = expectation(get_sparse_operator(op', n), amplitudes) with n = log2 of the number of amplitudes and
+    op' = reverse_qubit_order(op, n) exactly when `reverse_operator` is set - the quadratic form of the state with THAT matrix, nothing in between"""
+    UT = "orquestra.quantum.operators._utils"
+    SPARSE = z3.Function("get_sparse_operator", Obj, I, Obj)
+    REV = z3.Function("reverse_qubit_order", Obj, I, Obj)
+    EXPECT = z3.Function("expectation", Obj, Obj, Obj)
+    BITLEN = z3.Function("int.bit_length", I, I)
+    sym.OBJ_SCHEMAS["Amp"] = {"shape": lambda self: (types.SimpleNamespace(bit_length=lambda: sym.wrap_expr(BITLEN(z3.Function("number_of_amplitudes", Obj, I)(self.e)))),)}
+    sym.OBJ_SCHEMAS["Opr"] = {}
+    sym.OBJ_SCHEMAS["Val"] = {}
+    NAMP = z3.Function("number_of_amplitudes", Obj, I)
+
+    class WF:
+        def __init__(self, e):
+            self.amplitudes = SObj("Amp", e)
+
+    def setup(args, ns):
+        args["wavefunction"] = WF(sym.cur().fresh("amplitudes", Obj))
+    spec = {"RESULT": lambda op, wf, rev: SObj("Val", EXPECT(SPARSE(z3.If(sym.lift(rev), REV(sym.lift(op), BITLEN(NAMP(wf.amplitudes.e)) - 1), sym.lift(op)), BITLEN(NAMP(wf.amplitudes.e)) - 1), wf.amplitudes.e))}
+    c = vc.Contract(key=UT + ":get_expectation_value", params={"qubit_op": "Obj:Opr", "wavefunction": "Any", "reverse_operator": "Bool"},
+                    ensures="result == RESULT(qubit_op, wavefunction, reverse_operator)", spec=spec,
+                    doc="the quadratic form of the state with the sparse matrix of the operator on n = bit_length(number of amplitudes) - 1 qubits; the operator is "
+                        "reversed first exactly when reverse_operator is set")
+    stubs = lambda: {"get_sparse_operator": lambda op, n_qubits=None: SObj("Mat", SPARSE(sym.lift(op), sym.lift(n_qubits))),
+                     "reverse_qubit_order": lambda op, n_qubits=None: SObj("Opr", REV(sym.lift(op), sym.lift(n_qubits))),
+                     "expectation": lambda m, a: SObj("Val", EXPECT(sym.lift(m), sym.lift(a)))}
+    return [vprop.fn_ob("C09", c, {}, setup=setup, fallback=fb, obid="C09.get_expectation_value.contract", desc=c.doc, extra_stubs=stubs)]
